@@ -3,6 +3,7 @@ import Csproto.Bridge.Facts
 import Csproto.Bridge.WireFuncs
 import Csproto.Bridge.WireFuncs2
 import Csproto.Bridge.DecoderFuncs
+import Csproto.Bridge.EncoderFuncs
 /- axiom audit for C01: parsed by ./check; every line must list only propext / Classical.choice / Quot.sound -/
 open Csproto
 #print axioms C01.sizeOfVarint_exact
@@ -64,3 +65,12 @@ open Csproto
 #print axioms Csproto.Bridge.DecoderFuncs.DecodeFixed64_refines
 #print axioms Csproto.Bridge.DecoderFuncs.Offset_refines
 #print axioms Csproto.Bridge.DecoderFuncs.Reset_refines
+
+-- Encoder METHODS translated from encoder.go refine Enc.step (same buffer, same cursor, panic iff the buffer is short): Bridge/EncoderFuncs.lean
+#print axioms Csproto.Bridge.EncoderFuncs.EncodeUInt64_refines
+#print axioms Csproto.Bridge.EncoderFuncs.EncodeInt64_refines
+#print axioms Csproto.Bridge.EncoderFuncs.EncodeUInt32_refines
+#print axioms Csproto.Bridge.EncoderFuncs.EncodeInt32_refines
+#print axioms Csproto.Bridge.EncoderFuncs.EncodeSInt64_refines
+#print axioms Csproto.Bridge.EncoderFuncs.EncodeSInt32_refines
+#print axioms Csproto.Bridge.EncoderFuncs.writeAt_writeAt
